@@ -255,3 +255,226 @@ class PedFilter(SubCheck):
 
 
 SUBCHECKS["ped_filter"] = PedFilter()
+
+
+# =====================================================================================================================
+# ped_parts: which bits of the reported transmission value belong to which child (LLSym over Pedigree + PedigreePartitions)
+# =====================================================================================================================
+PARTS_UNITS = ["pedigree.cpp", "pedigreepartitions.cpp", "genotype.cpp", "binomial.cpp", "phredgenotypelikelihoods.cpp"]
+
+
+def parts_harness(shape):
+    """individual ids 10.. (ids differ from indices); the relationships are added in one of the listed orders (symbolic);
+    the transmission value is an arbitrary value of 2 bits per relationship"""
+    n, orders = shape["nind"], shape["orders"]
+    nt = len(orders[0])
+    L = ['#include <vector>', '#include "pedigree.h"', '#include "pedigreepartitions.h"', 'extern "C" unsigned sym_vs(const char*, unsigned, unsigned);', 'extern "C" void sym_out(const char*, unsigned, unsigned);', 'extern "C" void harness() {']
+    L.append("  Pedigree ped; std::vector<Genotype*> g; std::vector<PhredGenotypeLikelihoods*> l;")
+    L.append("  for (unsigned i = 0; i < %d; ++i) ped.addIndividual(10 + i, g, l);" % n)
+    L.append('  unsigned order = sym_vs("order", 0, %d);' % (len(orders) - 1))
+    for k, o in enumerate(orders):
+        L.append("  %sif (order == %d) { %s }" % ("else " if k else "", k, " ".join("ped.addRelationship(%d, %d, %d);" % (10 + f, 10 + m, 10 + c) for f, m, c in o)))
+    L.append('  unsigned tv = sym_vs("tv", 0, %d);' % (4 ** nt - 1))
+    L.append("  PedigreePartitions pp(ped, tv);")
+    L.append('  sym_out("count", 0, pp.count());')
+    L.append('  for (unsigned i = 0; i < %d; ++i) for (unsigned h = 0; h < 2; ++h) sym_out("h2p", 2 * i + h, (unsigned)pp.haplotype_to_partition(i, h));' % n)
+    L.append("}")
+    return "\n".join(L) + "\n"
+
+
+def parts_expected(shape, order, tv, flip):
+    """haplotype -> partition under the convention the Python side relies on: the k-th ADDED relationship owns bits 2k
+    (father) and 2k+1 (mother) of the transmission value (phase.py / write_recombination_list decode it that way);
+    `flip` chooses which bit value names which parental haplotype."""
+    n = shape["nind"]
+    rel = shape["orders"][order]
+    children = {c for _, _, c in rel}
+    h2p, p = {}, 0
+    for i in range(n):
+        if i not in children:
+            h2p[i] = [p, p + 1]
+            p += 2
+    todo = list(enumerate(rel))
+    while todo:
+        rest = []
+        for k, (f, m, c) in todo:
+            if f in h2p and m in h2p:
+                fb, mb = (tv >> (2 * k)) & 1, (tv >> (2 * k + 1)) & 1
+                h2p[c] = [h2p[f][fb ^ flip], h2p[m][mb ^ flip]]
+            else:
+                rest.append((k, (f, m, c)))
+        assert len(rest) < len(todo)
+        todo = rest
+    return h2p, p
+
+
+class PedParts(SubCheck):
+    """Child haplotype 0 shares its partition with the father's haplotype, haplotype 1 with the mother's haplotype selected
+    by THAT child's two bits of the transmission value - for every order in which the relationships were added."""
+
+    name = "ped_parts"
+    encoded = ["Pedigree::addIndividual / addRelationship / id_to_index / get_triples", "PedigreePartitions::PedigreePartitions / compute_haplotype_to_partition_rec / haplotype_to_partition / count (all from LLVM IR, clang++-14 -O1)"]
+    sources = ["src/pedigree.cpp", "src/pedigree.h", "src/pedigreepartitions.cpp", "src/pedigreepartitions.h"]
+    stubs = ["libstdc++ externals of vf/llsym/interp.py"]
+    assumptions = ["the k-th added relationship owns bits 2k (father) and 2k+1 (mother) of the transmission value - the decoding used by whatshap/cli/phase.py and whatshap/pedigree.py; which bit value names which parental haplotype is one fixed convention (as ped_mendel)"]
+    required_cover = ["partitions of every transmission value", "relationships added in another order than the individuals"]
+
+    def shapes(self, tier):
+        out = [
+            dict(fam="trio", nind=3, orders=[[(0, 1, 2)]]),
+            dict(fam="quartet", nind=4, orders=[[(0, 1, 2), (0, 1, 3)], [(0, 1, 3), (0, 1, 2)]]),
+            dict(fam="child listed before its parents", nind=3, orders=[[(1, 2, 0)]]),
+        ]
+        if tier != "quick":
+            out.append(dict(fam="two trios", nind=6, orders=[[(0, 1, 2), (3, 4, 5)], [(3, 4, 5), (0, 1, 2)]]))
+            out.append(dict(fam="three generations", nind=5, orders=[[(0, 1, 2), (2, 3, 4)], [(2, 3, 4), (0, 1, 2)]]))
+            out.append(dict(fam="three children", nind=5, orders=[[(0, 1, 2), (0, 1, 3), (0, 1, 4)], [(0, 1, 4), (0, 1, 2), (0, 1, 3)], [(0, 1, 3), (0, 1, 4), (0, 1, 2)]]))
+        return out
+
+    def bounds(self, tier):
+        return "families: %s; relationships added in every listed order (symbolic), ALL transmission values (2 bits per relationship) at once as a value-set input" % ", ".join(s["fam"] for s in self.shapes(tier))
+
+    def setup(self):
+        from vf.llsym import pipeline
+
+        pipeline.ensure_ir2json()
+        pipeline.core_bitcode(PARTS_UNITS)
+
+    def judge(self, shape, inp, native):
+        st, exc, o = native
+        if st != "ok":
+            return "PedigreePartitions fails on a valid pedigree: %s" % (exc or st)
+        bad = []
+        for flip in (1, 0):
+            exp, cnt = parts_expected(shape, inp["order"], inp["tv"], flip)
+            got = {i: [o[("h2p", 2 * i)], o[("h2p", 2 * i + 1)]] for i in range(shape["nind"])}
+            if got != exp or o[("count", 0)] != cnt:
+                bad.append("relationships %s, transmission value %d: haplotype partitions %s, expected %s" % (shape["orders"][inp["order"]], inp["tv"], got, exp))
+        return bad[0] if len(bad) == 2 else None
+
+    def run(self, shape, tier, seed):
+        import time
+        from vf.llsym import pipeline, irmod, dpcheck
+        from vf.llsym.interp import Interp, run_in_thread
+        from vf.llsym.values import Unsupported
+        from vf.runner import JobResult
+
+        t0 = time.time()
+        src = parts_harness(shape)
+        errors, viol, samples, cover = [], [], [], {}
+        stats = dict(paths=0, decisions=0, solver_queries=0, solver_s=0.0)
+        nob = ndis = ninc = replays = 0
+        try:
+            mod = irmod.Module(pipeline.harness_module(src, PARTS_UNITS))
+            it = Interp(mod, inputs_symbolic=True, time_budget=600)
+            status = run_in_thread(lambda: it.run_harness())
+        except Unsupported as u:
+            return JobResult(sub=self.name, shape=shape, stats=stats, violations=[], samples=[], cover={}, errors=([] if "time budget exceeded" in str(u) else ["LLSym unsupported: %s" % u]), replays=0, obligations=1, discharged=0, inconclusive=1, wall_s=time.time() - t0)
+        stats["decisions"] = it.stats["merges"] + it.stats["splits"]
+        exe = pipeline.native_twin(src, PARTS_UNITS, tag="pptwin")
+        cons = list(it.constraints)
+        if status != "ok":
+            errors.append("symbolic run aborted: %r" % (status,))
+        else:
+            outs = {k: v[1] for k, v in it.outputs.items()}
+            Z = lambda key: dpcheck.to_z3(it, outs[key])
+            order, tv = it.inputs["order"][0], it.inputs["tv"][0]
+            n = shape["nind"]
+            nt = len(shape["orders"][0])
+            notab = [z3.Not(it.lits.guard_expr(frozenset(g))) for g, k, m in it.aborts]
+            # the expected table as an if-then-else over the (small) input domain, per convention
+            wrong = {}
+            for flip in (1, 0):
+                cases = []
+                for oi in range(len(shape["orders"])):
+                    for t in range(4 ** nt):
+                        exp, cnt = parts_expected(shape, oi, t, flip)
+                        ok = z3.And(Z(("count", 0)) == cnt, *[Z(("h2p", 2 * i + h)) == exp[i][h] for i in range(n) for h in (0, 1)])
+                        cases.append(z3.And(order == oi, tv == t, z3.Not(ok)))
+                wrong[flip] = z3.Or(*cases)
+            res = {}
+            for flip in (1, 0):
+                nob += 1
+                r, model, dt = dpcheck.solve(wrong[flip], cons + notab, 300000)
+                stats["solver_queries"] += 1
+                stats["solver_s"] += dt
+                res[flip] = (r, model)
+            for g, kind, msg in it.aborts:
+                nob += 1
+                r, model, dt = dpcheck.solve(it.lits.guard_expr(frozenset(g)), cons, 300000)
+                stats["solver_queries"] += 1
+                stats["solver_s"] += dt
+                if r == "unsat":
+                    ndis += 1
+                elif r == "unknown":
+                    ninc += 1
+                else:
+                    inp = {nm: model.eval(x, model_completion=True).as_long() for nm, (x, lo, hi) in it.inputs.items()}
+                    nat = pipeline.run_native(exe, inp)
+                    replays += 1
+                    if nat[0] != "ok":
+                        viol.append(dict(sub=self.name, shape=shape, witness=inp, msg="PedigreePartitions fails on a valid pedigree: %s" % (nat[1] or nat[0]), info=None, reproduced=True, concrete=[nat[0], nat[1]]))
+                    else:
+                        errors.append("reachable %s (%s) not confirmed natively for %r" % (kind, msg, inp))
+            cover["partitions of every transmission value"] = 1
+            if len(shape["orders"]) > 1:
+                cover["relationships added in another order than the individuals"] = 1
+            rs = [res[1][0], res[0][0]]
+            if "unsat" in rs:
+                ndis += 2  # one convention holds for all inputs: the weaker reading is proved, the other query is moot
+                samples.append(dict(sub=self.name, shape=shape, obligation="partitions follow the added relationship's bits under one fixed convention", result="unsat (convention: bit %s selects haplotype 0)" % ("1" if res[1][0] == "unsat" else "0")))
+            elif "unknown" in rs:
+                ninc += 2
+            else:
+                # both conventions have counter-examples: prefer one input that contradicts both
+                nob += 1
+                rb, mb, dt = dpcheck.solve(z3.And(wrong[1], wrong[0]), cons + notab, 300000)
+                stats["solver_queries"] += 1
+                stats["solver_s"] += dt
+                model = mb if rb == "sat" else res[1][1]
+                inp = {nm: model.eval(x, model_completion=True).as_long() for nm, (x, lo, hi) in it.inputs.items()}
+                nat = pipeline.run_native(exe, inp)
+                replays += 1
+                why = self.judge(shape, inp, nat)
+                if why is None:
+                    # the model of the other convention may be the one that fails both
+                    model = res[0][1]
+                    inp = {nm: model.eval(x, model_completion=True).as_long() for nm, (x, lo, hi) in it.inputs.items()}
+                    nat = pipeline.run_native(exe, inp)
+                    replays += 1
+                    why = self.judge(shape, inp, nat)
+                if why:
+                    viol.append(dict(sub=self.name, shape=shape, witness=inp, msg="the child's partitions are not those selected by its own bits of the transmission value", info=dict(detail=why), reproduced=True, concrete=[nat[0], nat[1]]))
+                else:
+                    # each convention fails somewhere, but no single input fails both: still no fixed convention holds
+                    viol.append(dict(sub=self.name, shape=shape, witness=inp, msg="no fixed labelling convention of the transmission bits holds for all inputs", info=None, reproduced=True, concrete=[nat[0], nat[1]]))
+            # validation of the symbolic result against the native twin
+            import random
+
+            rnd = random.Random(seed)
+            for _ in range(4):
+                inp = {nm: rnd.randint(lo, hi) for nm, (x, lo, hi) in it.inputs.items()}
+                st, exc, nout = pipeline.run_native(exe, inp)
+                replays += 1
+                sub = [(x, z3.IntVal(inp[nm])) for nm, (x, lo, hi) in it.inputs.items()]
+                for key, v in outs.items():
+                    ev = z3.simplify(z3.substitute(dpcheck.to_z3(it, v), *sub))
+                    if st == "ok" and (not z3.is_int_value(ev) or ev.as_long() != nout.get(key)):
+                        errors.append("symbolic result disagrees with native twin at %s for %r: %s vs %s" % (key, inp, ev, nout.get(key)))
+                        break
+        stats["paths"] = nob
+        return JobResult(sub=self.name, shape=shape, stats=stats, violations=viol, samples=samples, cover=cover, errors=errors, replays=replays, obligations=nob, discharged=ndis, inconclusive=ninc, wall_s=time.time() - t0)
+
+    def replay(self, shape, witness):
+        from vf.llsym import pipeline
+
+        exe = pipeline.native_twin(parts_harness(shape), PARTS_UNITS, tag="pptwin")
+        nat = pipeline.run_native(exe, witness)
+        why = self.judge(shape, witness, nat)
+        return ("violation" if why else "ok"), why, []
+
+    def classify(self, shape, v):
+        return "ped_parts:%s:%s" % (v["msg"], shape["fam"])
+
+
+SUBCHECKS["ped_parts"] = PedParts()
